@@ -966,14 +966,37 @@ func c18Render(in c18Input, raw json.RawMessage, s *c18Run, obs c18Obs, flushCla
 				failedNew[r.Bug[:7]] = true
 			}
 		}
-		only := len(failedNew) > 0
+		// a NewBug that failed does not tell its id: a bug unknown to every successful call counts as one of them,
+		// as long as there are not more such bugs than failed NewBug calls
+		nFailedNew := 0
+		knownBug := map[string]bool{}
+		for _, r := range obs.Calls {
+			if in.Threads[r.T][r.K].K == "new" && r.EditE == c18Missing {
+				nFailedNew++
+			}
+			if len(r.Bug) >= 7 && !(in.Threads[r.T][r.K].K == "new" && r.EditE == c18Missing) {
+				knownBug[r.Bug[:7]] = true
+			}
+		}
+		for _, b := range s.shared {
+			if len(b) >= 7 {
+				knownBug[string(b)[:7]] = true
+			}
+		}
+		only := nFailedNew > 0
+		unknownMissing := 0
 		for _, d := range obs.Diff {
 			switch {
 			case strings.HasPrefix(d, "missing from live cache: ") && failedNew[strings.TrimPrefix(d, "missing from live cache: ")]:
+			case strings.HasPrefix(d, "missing from live cache: ") && !knownBug[strings.TrimPrefix(d, "missing from live cache: ")]:
+				unknownMissing++
 			case strings.HasPrefix(d, "query "):
 			default:
 				only = false
 			}
+		}
+		if unknownMissing > nFailedNew {
+			only = false
 		}
 		if only {
 			tags = append(tags, "incoherent:failed-new-bug-only")
